@@ -308,6 +308,9 @@ def run_sched(pid, spec, tier, seed, work, t0, no_prove):
     const_status = C.regen_constants()
     gate = C.grep_gate()
     pr = {"obligations": ["(skipped)"], "discharged": [], "failed": [], "axioms": {}, "log": ""} if no_prove else C.prove(pid)
+    stale = C.stale_ties(const_status, pid)
+    if stale and not no_prove:
+        pr["failed"] = list(pr["failed"]) + ["source-translation: " + x for x in stale]
     proof_ok = (not pr["failed"]) and (not gate) and len(pr["obligations"]) > 0
     op = "sched20" if pid == "C20" else "sched"
     cases = corpus_cases(pid) + gen_sched.schedules(tier, rng, op)
@@ -362,7 +365,15 @@ def run_sched(pid, spec, tier, seed, work, t0, no_prove):
             e["TSAN_OPTIONS"] = "halt_on_error=0:second_deadlock_stack=1:exitcode=66"
             e["TZDIR"] = os.path.join(C.REPO, "testdata", "zoneinfo")
             e["TZ"] = "America/Chicago"
-            for (sd, n, it) in runs:
+            # cold starts first: the very first uses of the library overlap (fresh process each time)
+            for i in range(12 if tier == "quick" else 60):
+                n = (2, 3, 4, 8)[i % 4]
+                r = subprocess.run(["timeout", "120", th, "coldstart", str(seed * 100 + i), str(n)], env=e, stdout=subprocess.PIPE, stderr=subprocess.PIPE, text=True)
+                if "ThreadSanitizer" in r.stderr or r.returncode != 0:
+                    tsan_bad = {"seed": seed * 100 + i, "threads": n, "iters": 0, "rc": r.returncode, "report": r.stderr[-4000:], "mode": "coldstart"}
+                    break
+            tsan_note["coldstart_runs"] = (12 if tier == "quick" else 60) if tsan_bad is None else "stopped at the first report"
+            for (sd, n, it) in (runs if tsan_bad is None else []):
                 r = subprocess.run(["timeout", "600", th, "stress", str(sd), str(n), str(it)], env=e, stdout=subprocess.PIPE, stderr=subprocess.PIPE, text=True)
                 tsan_note["stress_%d_%d_%d" % (sd, n, it)] = "rc=%d" % r.returncode
                 if "ThreadSanitizer" in r.stderr or "VALUE-MISMATCH" in r.stderr or r.returncode != 0:
@@ -470,6 +481,9 @@ def run_c19(pid, spec, tier, seed, work, t0, no_prove):
     const_status = C.regen_constants()
     gate = C.grep_gate()
     pr = {"obligations": ["(skipped)"], "discharged": [], "failed": [], "axioms": {}, "log": ""} if no_prove else C.prove(pid)
+    stale = C.stale_ties(const_status, pid)
+    if stale and not no_prove:
+        pr["failed"] = list(pr["failed"]) + ["source-translation: " + x for x in stale]
     proof_ok = (not pr["failed"]) and (not gate) and len(pr["obligations"]) > 0
     root = tempfile.mkdtemp(prefix="verif_c19_")
     try:
